@@ -76,7 +76,7 @@ impl Config {
         Config {
             int_lits: vec!["0", "1", "2"],
             arith: vec![Op::Add, Op::Sub, Op::Mul, Op::Div],
-            cmp: vec![Op::Lt, Op::Eq],
+            cmp: vec![Op::Lt, Op::Le, Op::Eq, Op::Gt, Op::Ge],
             arg_types: vec![Ty::Int, Ty::Bool, Ty::fun(Ty::Int, Ty::Int), Ty::Type],
             let_types: vec![Ty::Int, Ty::Bool, Ty::fun(Ty::Int, Ty::Int), Ty::Type, Ty::Poly],
             groups_of_two: true,
